@@ -323,7 +323,7 @@ func tryDecode(run *evid.Run, hb *hostile, w *hx.World, honest iface.IPFSLogEntr
 // ---------------------------------------------------------------- C12
 
 func CheckC12(run *evid.Run) {
-	run.Rule = "three seeded generators. (1) structured: the generic CBOR value of a valid v2 entry, a v1 entry, a manifest and the JSON of a v0 entry inside a protobuf node, with single edits ENUMERATED EXHAUSTIVELY (every field path incl. clock.*, identity.*, identity.signatures.*, next[0], refs[0], enc_links*, an extra field x 21 replacement kinds: delete, null, ints incl. negative/2^64-1/minint, texts incl. invalid/odd hex and 10^5 chars, bytes, arrays, maps, link, bool, float) and seeded 2-4-edit combinations, plus the empty map and non-map roots; (2) byte level: every truncation offset and seeded bit flips of valid blocks, random bytes; each block is decoded under recover with the real codecs (default, link-key, legacy) and every accessor / comparator / Sort / Equals / IsParent / IsValid / Copy / ToHashable / Verify (3 codecs) / ToMultihash / Join / Iterator is called on whatever decodes; (3) placement: hostile blocks that do not decode replace the head / an interior entry / a root / a reference-only target of a stored log which is then loaded through all four loaders in a child process (journal): the process must survive and the rest of the history (model closure with those blocks undecodable) must load. Non-trivial = block that passes IPLD decoding; distinct = (template, edit path(s), replacement kind(s)) / placement class"
+	run.Rule = "three seeded generators. (1) structured: the generic CBOR value of a valid v2 entry, a v1 entry, a manifest and the JSON of a v0 entry inside a protobuf node, with single edits ENUMERATED EXHAUSTIVELY (every field path incl. clock.*, identity.*, identity.signatures.*, next[0], refs[0], enc_links*, an extra field x 21 replacement kinds: delete, null, ints incl. negative/2^64-1/minint, texts incl. invalid/odd hex and 10^5 chars, bytes, arrays, maps, link, bool, float) and seeded 2-4-edit combinations, plus the empty map and non-map roots; (2) byte level: every truncation offset and seeded bit flips of valid blocks, random bytes; each block is decoded under recover with the real codecs (default, link-key, legacy) and every accessor / comparator / Sort / Equals / IsParent / IsValid / Copy / ToHashable / Verify (3 codecs) / ToMultihash / Join / Iterator is called on whatever decodes; (3) placement: 1-9 hostile blocks that do not decode replace the head / an interior entry / a root / a reference-only target (and further seeded positions) of a stored log which is then loaded through all four loaders with concurrency in {default,1,2,3,8} in a child process (journal, state-based hang detector); also chains of legacy v0 protobuf blocks with hostile v0 blocks loaded with the legacy codec, and hostile manifests: the process must survive and the rest of the history (model closure with those blocks undecodable) must load. Non-trivial = block that passes IPLD decoding; distinct = (template, edit path(s), replacement kind(s)) / placement class"
 	run.Assumptions = []string{"single-edit matrix is exhaustive over the stated paths x kinds; multi-edits, byte flips and placements are sampled"}
 	// (1)+(2) in-process under recover, split over workers by template
 	w := hx.NewWorld(run.Seed, 2, "c12", "hash", "cbor")
